@@ -25,8 +25,8 @@ def _common(m):
                 recursion=[(r'fix_insert', _rec_ins(m)), (r'fix_remove', _rec_rem(m)), (r'for_overlaps_in_subtree', max(1, _maxheight(m)))], inline_witness=True, witness='any')
 def queries(tier):
     qs = []
-    SYM = 1 if tier == 'quick' else 3          # fully symbolic shape (one query per size): cross-check of the case split
-    MAXS = 6 if tier == 'quick' else 9        # shape case split: one query per (operation, size, shape)
+    SYM = 1 if tier == 'quick' else 2          # fully symbolic shape (one query per size): cross-check of the case split
+    MAXS = 6 if tier == 'quick' else 8        # shape case split: one query per (operation, size, shape)
     MAXS_INS = 5 if tier == 'quick' else 7     # insert keeps the new key symbolic (position decided by the solver): costlier per shape
     for (entry, nm, lo, what) in OPS:
         for m in range(lo, SYM + 1):
